@@ -199,7 +199,6 @@ theorem vr_static_resetSt {voters : List Id} {n : Nat} {r : Raft} (h : RaftStati
   id := h.id
   idnz := h.idnz
   pv := h.pv
-  cq := h.cq
   xfer := rfl
   pri := h.pri
   ro := rfl
@@ -395,7 +394,6 @@ theorem vr_sends_sim {val : Val} {voters : List Id} {n : Nat} {s : Spec.State} {
       id := by rw [hok.cfg]; exact hI.st.id
       idnz := hI.st.idnz
       pv := by rw [hok.cfg]; exact hI.st.pv
-      cq := by rw [hok.cfg]; exact hI.st.cq
       xfer := hsf.leadTransferee.trans hI.st.xfer
       pri := hsf.pendingReadIndexMessages.trans hI.st.pri
       ro := by rw [hsf.readOnly]; exact hI.st.ro
@@ -555,7 +553,6 @@ theorem vr_becomeLeader_inv {val : Val} {voters : List Id} {n : Nat} {s : Spec.S
       id := by rw [hp.cfg]; exact hid
       idnz := hinv.st.idnz
       pv := by rw [hp.cfg]; exact hinv.st.pv
-      cq := by rw [hp.cfg]; exact hinv.st.cq
       xfer := hf.xfer
       pri := hf.pri.trans hinv.st.pri
       ro := hf.ro
